@@ -149,6 +149,34 @@ fn main() {
         t
     });
 
+    // S2b: every gap 0..=G with the cheap near-multiple operands only: a = y*10^g*k + d at scale g, b = y
+    let gmax: usize = tier.pick(2000, 5000);
+    run.bound("S2b_every_gap_to", gmax);
+    run.par("S2b near-multiples at every gap", gmax + 1, |g| {
+        let mut t = Tally::default();
+        t.states += 1;
+        let p = pow10(g as u64);
+        for y in [BigInt::from(1), BigInt::from(-1), BigInt::from(3)] {
+            for k in [1i64, 7] {
+                for d in [-1i64, 0, 1, 7] {
+                    let a = Dec { n: &y * &p * k + d, s: g as i128 };
+                    let b = Dec { n: y.clone(), s: 0 };
+                    t.nontrivial += 5;
+                    for v in check(&fs, &a, &b, &bd(&a), &bd(&b), &mut t) {
+                        run.report(v);
+                    }
+                    // and the mirrored arrangement: the divisor carries the larger scale
+                    let a2 = Dec { n: &y * k + d, s: 0 };
+                    let b2 = Dec { n: &y * &p, s: g as i128 };
+                    for v in check(&fs, &a2, &b2, &bd(&a2), &bd(&b2), &mut t) {
+                        run.report(v);
+                    }
+                }
+            }
+        }
+        t
+    });
+
     // S3: exact multiples, operands equal up to representation, |a| < |b|
     let mut s3: Vec<(Dec, Dec)> = vec![];
     for n in [1i64, 3, 12, 125, -7, 999] {
